@@ -15,9 +15,9 @@ R-EFFECT  the writes reachable from formulate go to fresh objects or to the scra
           element of a container, object state or a cached object handed to it is still reported.
 R-ORDER   no unordered container with hash-seed-sensitive elements reaches an order-
           preserving sink without sorted().
-R-CANON   every mapping field of HelicityModel has a converter that returns a new mapping with the same
-          items in an order that does not depend on the insertion order of its argument: the converter is
-          interpreted (sa/pyexec.py) on the same items in three insertion orders.
+R-CANON   every mapping field of HelicityModel has a converter that returns, on every path, a new
+          mapping filled in sorted order of its argument (``converter_result``: locals substituted,
+          package helpers that receive the argument are followed).
 """
 
 from __future__ import annotations
@@ -28,7 +28,6 @@ import re
 from ..dataflow import MUTATORS, RD, Def
 from ..loader import AnalysisError, FuncInfo, Tree, ancestors, unparse, walk_function
 from ..report import Check
-from ..rules import MObj
 
 PID = "C06"
 BUILDER = "ampform.helicity::HelicityAmplitudeBuilder"
@@ -85,16 +84,6 @@ def cha_targets(tree: Tree, call: ast.Call, fn: FuncInfo) -> list[FuncInfo]:
         return out
     unresolved = callee is None or (callee.startswith("ampform") and callee not in tree.classes)
     if unresolved and isinstance(call.func, ast.Attribute) and call.func.attr not in CONTAINER_METHOD_NAMES:
-        recv = call.func.value
-        if isinstance(recv, ast.Name) and recv.id in {"self", "cls"}:
-            # a method of the receiver's own class hierarchy (one that the class does not define - generated by attrs,
-            # inherited from an external base - has no target in the package)
-            owner = fn
-            while owner is not None and owner.cls is None:
-                owner = owner.outer
-            if owner is not None and owner.cls is not None:
-                family = [*tree.mro(owner.cls), *tree.subclasses(owner.cls)]
-                return [c.methods[call.func.attr] for c in family if call.func.attr in c.methods]
         return [f for q, f in tree.funcs.items() if q.startswith("ampform") and f.cls is not None and f.outer is None and f.name == call.func.attr]
     return []
 
@@ -316,16 +305,6 @@ class AliasFlow:
         if isinstance(expr, ast.Call):
             f = expr.func
             name = f.id if isinstance(f, ast.Name) else f.attr if isinstance(f, ast.Attribute) else None
-            # selection spelled as a call: operator.itemgetter(i)(x), operator.getitem(x, i), x.__getitem__(i), typing.cast(T, x)
-            resolved = self.tree.resolve(fn.module, f, fn) if isinstance(f, (ast.Name, ast.Attribute)) else None
-            if isinstance(f, ast.Call) and self.tree.resolve(fn.module, f.func, fn) == "operator.itemgetter" and len(f.args) == 1 and len(expr.args) == 1:
-                return self.origin(ast.copy_location(ast.Subscript(value=expr.args[0], slice=f.args[0], ctx=ast.Load()), expr), fn, depth + 1)
-            if resolved == "operator.getitem" and len(expr.args) == 2:
-                return self.origin(ast.copy_location(ast.Subscript(value=expr.args[0], slice=expr.args[1], ctx=ast.Load()), expr), fn, depth + 1)
-            if name == "__getitem__" and isinstance(f, ast.Attribute) and len(expr.args) == 1:
-                return self.origin(ast.copy_location(ast.Subscript(value=f.value, slice=expr.args[0], ctx=ast.Load()), expr), fn, depth + 1)
-            if resolved in {"typing.cast", "typing_extensions.cast"} and len(expr.args) == 2:
-                return self.origin(expr.args[1], fn, depth + 1)
             if name in COPIERS:
                 return None
             for tgt in cha_targets(self.tree, expr, fn):
@@ -540,188 +519,124 @@ def _new_container(v: ast.AST | None) -> bool:
     return isinstance(v, (ast.Dict, ast.List, ast.Set)) or (isinstance(v, ast.Call) and unparse(v.func) in {"dict", "list", "set", "OrderedDict", "collections.OrderedDict"})
 
 
-INGREDIENTS = "ampform.helicity::_HelicityModelIngredients"
+def _setattr_on_self(st: ast.stmt) -> tuple[ast.AST, ast.AST] | None:
+    """``setattr(self, <name>, <value>)`` as a statement -> (name expression, value)."""
+    if isinstance(st, ast.Expr) and isinstance(st.value, ast.Call) and isinstance(st.value.func, ast.Name) and st.value.func.id == "setattr":
+        c = st.value
+        if len(c.args) == 3 and not c.keywords and isinstance(c.args[0], ast.Name) and c.args[0].id == "self":
+            return c.args[1], c.args[2]
+    return None
 
 
-def scratch_attributes(tree: Tree, builder, ing) -> set[str]:
-    """Attributes of the builder that hold the per-call scratch object (an instance of the ingredients class)."""
-    out: set[str] = set()
-    for m in builder.methods.values():
-        for node in walk_function(m.node):
-            if isinstance(node, (ast.Assign, ast.AnnAssign)) and getattr(node, "value", None) is not None:
-                value = node.value
-                if isinstance(value, ast.Call) and tree.resolve(m.module, value.func, m) == ing.qual:
-                    for t in (node.targets if isinstance(node, ast.Assign) else [node.target]):
-                        if isinstance(t, ast.Attribute) and isinstance(t.value, ast.Name) and t.value.id == "self":
-                            out.add(t.attr)
-    return out
-
-
-def reset_before_use(tree: Tree, formulate: FuncInfo, scratch: set[str], ing, reach_cache: dict) -> tuple[str, str, str | None]:
-    """("ok" | "violation" | "undecided", text, name of the resetting method).  The effective body of formulate (private
-    helpers spliced in) is read statement by statement: the scratch object must be reset - a method of the ingredients
-    class is called on it as a statement, or the attribute is re-bound to a new instance - before any statement that uses
-    it (mentions it, or calls a method of the builder that reaches a use)."""
-    from ..inline import flatten
-
-    flat = flatten(tree, formulate)
-    aliases: set[str] = set()
-
-    def is_scratch(e: ast.AST) -> bool:
-        if isinstance(e, ast.Name):
-            return e.id in aliases
-        return isinstance(e, ast.Attribute) and e.attr in scratch and isinstance(e.value, ast.Name) and e.value.id == "self"
-
-    def mentions(node: ast.AST) -> bool:
-        return any(is_scratch(n) for n in ast.walk(node))
-
-    def touches(q: str) -> bool:
-        if q not in reach_cache:
-            reach_cache[q] = any(
-                isinstance(n, ast.Attribute) and n.attr in scratch and isinstance(n.value, ast.Name) and n.value.id == "self"
-                for g in reach_from(tree, q).values() if g.cls is not None and g.cls == formulate.cls or (g.outer is not None)
-                for n in walk_function(g.node, nested=True))
-        return reach_cache[q]
-
-    def walk_block(stmts: list[ast.stmt]):
-        for st in stmts:
-            if isinstance(st, ast.Expr) and isinstance(st.value, ast.Constant):
+def reset_fresh_fields(tree: Tree, reset: FuncInfo, fields: list[str]) -> dict[str, bool]:
+    """field -> is it bound to a container created by the statement itself.  Understood spellings:
+    ``self.f = {}``, ``setattr(self, "f", {})``, and an unconditional ``setattr(self, a.name, {})`` /
+    ``setattr(self, n, {})`` in the body of a loop over ``attrs.fields(type(self))`` (every field of the
+    class) / over a display of field names; the value expression is evaluated once per field."""
+    fresh: dict[str, bool] = {}
+    for st in walk_function(reset.node):
+        if isinstance(st, ast.Assign) and isinstance(st.targets[0], ast.Attribute) and unparse(st.targets[0].value) == "self":
+            fresh[st.targets[0].attr] = _new_container(st.value)
+        elif isinstance(st, ast.Expr):
+            sa_ = _setattr_on_self(st)
+            if sa_ is not None and isinstance(sa_[0], ast.Constant) and isinstance(sa_[0].value, str):
+                fresh[sa_[0].value] = _new_container(sa_[1])
+        elif isinstance(st, ast.For) and isinstance(st.target, ast.Name) and not st.orelse and st in reset.node.body:
+            names, via_name_attr = None, False
+            it = st.iter
+            if isinstance(it, (ast.Tuple, ast.List)) and all(isinstance(e, ast.Constant) and isinstance(e.value, str) for e in it.elts):
+                names = [e.value for e in it.elts]
+            elif isinstance(it, ast.Call) and len(it.args) == 1 and not it.keywords and tree.resolve(reset.module, it.func, reset) in {"attrs.fields", "attr.fields"}:
+                a = it.args[0]
+                own = unparse(a) in {"type(self)", "self.__class__"} or (reset.cls is not None and tree.resolve(reset.module, a, reset) == reset.cls.qual)
+                if own:
+                    names, via_name_attr = list(fields), True
+            if names is None:
                 continue
-            if isinstance(st, ast.Expr) and isinstance(st.value, ast.Call) and isinstance(st.value.func, ast.Attribute) and is_scratch(st.value.func.value) \
-                    and tree.lookup_method(ing, st.value.func.attr) is not None and not st.value.args and not st.value.keywords:
-                return "reset", st, st.value.func.attr
-            if isinstance(st, ast.Assign) and len(st.targets) == 1 and is_scratch(st.targets[0]) and isinstance(st.targets[0], ast.Attribute) \
-                    and isinstance(st.value, ast.Call) and tree.resolve(formulate.module, st.value.func, formulate) == ing.qual:
-                return "reset", st, None
-            if isinstance(st, ast.Assign) and len(st.targets) == 1 and isinstance(st.targets[0], ast.Name) and is_scratch(st.value):
-                aliases.add(st.targets[0].id)
-                continue
-            if isinstance(st, (ast.With, ast.Try)) and not mentions(ast.Module(body=[*getattr(st, "items", [])], type_ignores=[])):
-                inner = walk_block(st.body)
-                if inner is not None:
-                    return inner
-                continue
-            if mentions(st):
-                if isinstance(st, (ast.If, ast.For, ast.While)) and any(
-                        isinstance(n, ast.Call) and isinstance(n.func, ast.Attribute) and is_scratch(n.func.value) and tree.lookup_method(ing, n.func.attr) is not None for n in ast.walk(st)):
-                    return "undecided", st, None
-                return "use", st, None
-            for call in [n for n in ast.walk(st) if isinstance(n, ast.Call)]:
-                callee = tree.callee(call, formulate) if getattr(call, "_module", None) is not None else None
-                if callee in tree.funcs and touches(callee):
-                    return "use", st, None
-                if callee is None and isinstance(call.func, ast.Attribute) and isinstance(call.func.value, ast.Name) and call.func.value.id == "self":
-                    return "undecided", st, None
-        return None
-
-    res = walk_block(flat.node.body)
-    if res is None:
-        if touches(formulate.qual):
-            return "violation", "the per-builder scratch state is never reset in formulate: the previous formulate() leaks into this one", None
-        return "ok", "formulate uses no scratch state", None
-    kind, st, method = res
-    text = unparse(st)[:60]
-    if kind == "reset":
-        return "ok", f"formulate resets the scratch state (`{text}`) before anything uses it", method
-    if kind == "use":
-        return "violation", f"`{text}` uses the per-builder scratch state before it is reset: the previous formulate() leaks into this one", None
-    return "undecided", f"cannot decide whether `{text}` resets or uses the scratch state", None
-
-
-def reset_model_check(tree: Tree, ing, method: str) -> list[str]:
-    """The resetting method is INTERPRETED (sa/pyexec.py) on an ingredients object whose fields hold stale content:
-    afterwards every field must be an empty container that no other field shares.  Returns the fields for which
-    this does not hold."""
-    from ..pyexec import ClassObj, Instance, ModelError, ModelRaise, PyExec
-
-    fields = [st.target.id for st in ing.node.body if isinstance(st, ast.AnnAssign) and isinstance(st.target, ast.Name)]
-    ex = PyExec(tree)
-
-    def factory_value(st: ast.AnnAssign):
-        if isinstance(st.value, ast.Call):
-            for k in st.value.keywords:
-                if k.arg == "factory":
-                    return ex.apply(ex.ev(k.value, {}, PyExec.module_scope(ing.module), 0), [], {})
-                if k.arg == "default":
-                    return ex.ev(k.value, {}, PyExec.module_scope(ing.module), 0)
-        elif st.value is not None:
-            return ex.ev(st.value, {}, PyExec.module_scope(ing.module), 0)
-        raise ModelRaise("TypeError", f"missing argument {st.target.id}")
-
-    def generated_init(obj):
-        def init(a, k):
-            for st in ing.node.body:
-                if isinstance(st, ast.AnnAssign) and isinstance(st.target, ast.Name):
-                    obj.attrs[st.target.id] = k[st.target.id] if st.target.id in k else factory_value(st)
-
-        return init
-
-    def construct(a, k):
-        obj = Instance("a new ingredients object", ing, kinds={ing.qual})
-        generated_init(obj)(a, k)
-        return obj
-
-    class_obj = ClassObj(ing, {"__call__": construct})
-    ex.class_refs[ing.qual] = class_obj
-    ex.externals[ing.qual] = class_obj
-    field_objects = [MObj(f"field {f}", {"name": f}, open=False) for f in fields]
-    for name in ("attrs.fields", "attr.fields", "dataclasses.fields"):
-        ex.externals[name] = lambda a, k: tuple(field_objects)
-    ex.externals["attrs.fields_dict"] = ex.externals["attr.fields_dict"] = lambda a, k: {f.attrs["name"]: f for f in field_objects}
-    old = {f: {"stale": f} for f in fields}
-    obj = Instance("the ingredients object", ing, dict(old), kinds={ing.qual})
-    if tree.lookup_method(ing, "__init__") is None:
-        obj.attrs["__init__"] = obj.attrs["__attrs_init__"] = generated_init(obj)
-    try:
-        ex.call_method(obj, method)
-    except ModelRaise as exc:
-        return [f"{method}() raises {exc}"]
-    except ModelError as exc:
-        raise AnalysisError(f"{ing.qual}.{method}: cannot interpret - {exc}") from exc
-    bad = []
-    for f in fields:
-        v = obj.attrs.get(f)
-        if not isinstance(v, (dict, list, set)) or len(v) != 0:
-            bad.append(f)
-        elif any(obj.attrs.get(g) is v for g in fields if g != f):
-            bad.append(f"{f} (shares its container with another field)")
-    return bad
+            if any(isinstance(n, (ast.Break, ast.Continue, ast.Return)) for b in st.body for n in ast.walk(b)):
+                continue  # the loop may stop early or skip a field
+            if any(isinstance(n, ast.Name) and n.id == st.target.id and not isinstance(n.ctx, ast.Load) for b in st.body for n in ast.walk(b)):
+                continue  # the loop variable is re-bound in the body
+            for b in st.body:
+                sa_ = _setattr_on_self(b)
+                if sa_ is None:
+                    continue
+                key = sa_[0]
+                if via_name_attr:
+                    ok = isinstance(key, ast.Attribute) and key.attr == "name" and isinstance(key.value, ast.Name) and key.value.id == st.target.id
+                else:
+                    ok = isinstance(key, ast.Name) and key.id == st.target.id
+                if ok:
+                    for n in names:
+                        fresh[n] = _new_container(sa_[1])
+    return fresh
 
 
 def check_effects(ctx: Check, tree: Tree, reach: dict[str, FuncInfo]) -> None:
     formulate = tree.func(FORMULATE)
-    ing = tree.cls(INGREDIENTS)
-    builder = tree.cls(BUILDER)
-    scratch_attrs = scratch_attributes(tree, builder, ing)
-    if not scratch_attrs:
-        raise AnalysisError("vanished anchor: no attribute of HelicityAmplitudeBuilder is bound to a _HelicityModelIngredients object")
     # 1. scratch state is reset first
-    verdict, text, method = reset_before_use(tree, formulate, scratch_attrs, ing, {})
-    if verdict == "undecided":
-        raise AnalysisError(f"{FORMULATE}: {text}")
-    ctx.verdict(verdict == "ok", "R-EFFECT", f"{FORMULATE}::reset-first", tree.loc(formulate.node), text if verdict == "ok" else "formulate resets its scratch state before using it",
-                None if verdict == "ok" else text)
-    scratch = "self." + sorted(scratch_attrs)[0]
-    scratch_attr = scratch.split(".")[-1]
-    # 2. the reset re-creates every field
+    # The scratch attribute is the one that __init__ binds to an instance of the ingredients class.  It must be
+    # re-initialised before formulate() touches anything else: either `self.X.reset()` (and reset re-creates every
+    # field) or a re-binding `self.X = <IngredientsClass>()` (also through a local), whose fields are per-instance
+    # factories.  Three-valued: a use of the scratch state before / without re-initialisation is a violation; a
+    # first statement that is neither is "cannot decide".
+    ing = tree.cls("ampform.helicity::_HelicityModelIngredients")
     fields = [st.target.id for st in ing.node.body if isinstance(st, ast.AnnAssign) and isinstance(st.target, ast.Name)]
-    reset = tree.lookup_method(ing, method or "reset")
-    if reset is None:
-        if method is None and verdict == "ok":
-            ctx.ok("R-EFFECT", tree.loc(formulate.node), "the scratch object is replaced by a new instance: nothing to reset")
-        else:
-            raise AnalysisError("vanished anchor: _HelicityModelIngredients.reset")
+    body = [s for s in formulate.node.body if not (isinstance(s, ast.Expr) and isinstance(s.value, ast.Constant))]
+    frd = RD(formulate.node)
+
+    def is_fresh_instance(e) -> bool:
+        if isinstance(e, ast.Call) and not e.args and not e.keywords and tree.resolve(formulate.module, e.func, formulate) == ing.qual:
+            return True
+        if isinstance(e, ast.Name):
+            defs = list(frd.reaching(e))
+            return bool(defs) and all(d.value is not None and d.index is None and is_fresh_instance(d.value) for d in defs)
+        return False
+
+    scratch, how, first = None, None, (body[0] if body else None)
+    for st in body:
+        if isinstance(st, ast.Expr) and isinstance(st.value, ast.Call) and isinstance(st.value.func, ast.Attribute) and st.value.func.attr == "reset" and unparse(st.value.func.value).startswith("self."):
+            scratch, how = unparse(st.value.func.value), "reset"
+            break
+        if isinstance(st, ast.Assign) and len(st.targets) == 1 and isinstance(st.targets[0], ast.Attribute) and unparse(st.targets[0]).startswith("self.") and is_fresh_instance(st.value):
+            scratch, how = unparse(st.targets[0]), "fresh"
+            break
+        if isinstance(st, ast.Assign) and len(st.targets) == 1 and isinstance(st.targets[0], ast.Name) and is_fresh_instance(st.value):
+            continue  # `ingredients = _HelicityModelIngredients()`: creating the fresh object uses nothing
+        break  # any other statement comes before the re-initialisation
+    uses_self = any(isinstance(n, ast.Attribute) and isinstance(n.value, ast.Name) and n.value.id == "self" and "ingredients" in n.attr for st in body for n in ast.walk(st))
+    if scratch is None and not uses_self:
+        raise AnalysisError(f"{FORMULATE}: no use of a scratch attribute found - the shape of formulate() is not understood")
+    ctx.verdict(scratch is not None, "R-EFFECT", f"{FORMULATE}::reset-first", tree.loc(formulate.node),
+                f"formulate starts with `{unparse(first)[:50] if first is not None else ''}` (scratch state re-initialised before anything else: {how})",
+                None if scratch else "the per-builder scratch state is not reset before it is used: the previous formulate() leaks into this one")
+    scratch = scratch or "self.__ingredients"
+    scratch_attr = scratch.split(".")[-1]
+    # 2. the re-initialisation re-creates every field
+    if how == "fresh":
+        shared = []
+        for st in ing.node.body:
+            if isinstance(st, ast.AnnAssign) and isinstance(st.target, ast.Name):
+                v = st.value
+                per_instance = isinstance(v, ast.Call) and any(k.arg in {"factory", "default_factory"} for k in v.keywords)
+                immutable_default = v is None or isinstance(v, ast.Constant)
+                if not (per_instance or immutable_default):
+                    shared.append(st.target.id)
+        ctx.verdict(not shared, "R-EFFECT", f"{ing.qual}.reset::all-fields", tree.loc(ing.node),
+                    f"a fresh _HelicityModelIngredients() gives each of its {len(fields)} fields its own container (per-instance factories)", shared or None)
     else:
-        missing = reset_model_check(tree, ing, reset.name)
+        reset = ing.methods.get("reset")
+        if reset is None:
+            raise AnalysisError("vanished anchor: _HelicityModelIngredients.reset")
+        fresh = reset_fresh_fields(tree, reset, fields)
+        missing = [f for f in fields if not fresh.get(f)]
         ctx.verdict(not missing, "R-EFFECT", f"{ing.qual}.reset::all-fields", tree.loc(reset.node),
-                    f"_HelicityModelIngredients.{reset.name} leaves each of its {len(fields)} fields with an empty container of its own (interpreted on an object with stale content)", missing or None)
+                    f"_HelicityModelIngredients.reset assigns a fresh container to each of its {len(fields)} fields", missing or None)
     # 3. writes reachable from formulate
     n_writes = 0
     n_through = 0
     sites = CallSites(tree, reach)
     freshness = Freshness(tree)
-    undecided: list[str] = []
-    constructed = {callee for f in reach.values() for _, callee in tree.calls_in(f, nested=True) if callee in tree.classes}
     for q, fn in sorted(reach.items()):
         if not q.startswith("ampform"):
             continue
@@ -765,10 +680,6 @@ def check_effects(ctx: Check, tree: Tree, reach: dict[str, FuncInfo]) -> None:
                     continue  # constructing a fresh object
                 if fn.cls is not None and fn.cls.qual == "ampform.helicity.align.dpd::_DPDAlignmentWignerGenerator":
                     continue  # per-call generator object created inside the (memoised) aligned-amplitude function; see R-CACHE for its dict
-                if fn.cls is not None and fn.cls.qual != BUILDER and fn.cls.qual in constructed:
-                    # an object of this class is created on the formulate path: the receiver may be that short-lived object
-                    undecided.append(f"{q}: `{unparse(node)[:60]}` writes state of a {fn.cls.name} object; such objects are created during formulate(), so whether this one survives it is not established")
-                    continue
                 ctx.violation("R-EFFECT", key, where, f"{q}: `{unparse(node)[:60]}` writes object state that survives formulate()",
                               "state outside the reset scratch area makes the next formulate() depend on this one")
                 continue
@@ -791,45 +702,36 @@ def check_effects(ctx: Check, tree: Tree, reach: dict[str, FuncInfo]) -> None:
                 if why is None:
                     n_through += 1
                     continue
-                if why[0] == "unknown":
-                    undecided.append(f"{q}: `{unparse(node)[:60]}` writes to its argument `{base}` - {why[1]}")
-                    continue
-                ctx.violation("R-EFFECT", key, where, f"{q}: `{unparse(node)[:60]}` mutates its argument `{base}` on the formulate path ({why[1]})")
+                ctx.violation("R-EFFECT", key, where, f"{q}: `{unparse(node)[:60]}` mutates its argument `{base}` on the formulate path ({why})")
                 continue
             mod = fn.module
-            is_local = any(isinstance(n, ast.Name) and n.id == base and isinstance(n.ctx, ast.Store) for n in walk_function(fn.node, nested=False)) and base not in globals_declared
-            if base in mod.toplevel and not is_local and not isinstance(mod.toplevel[base], (ast.FunctionDef, ast.ClassDef, ast.Import, ast.ImportFrom)):
+            if base in mod.toplevel and not isinstance(mod.toplevel[base], (ast.FunctionDef, ast.ClassDef)):
                 ctx.violation("R-EFFECT", key, where, f"{q}: `{unparse(node)[:60]}` mutates module-level `{base}`")
-    if undecided:
-        raise AnalysisError("R-EFFECT: " + "; ".join(undecided[:3]))
     ctx.stats["writes_on_formulate_path"] = n_writes
     ctx.stats["writes_to_arguments_that_are_fresh_at_every_call_site"] = n_through
     ctx.ok("R-EFFECT", tree.loc(formulate.node), f"{n_writes} write sites in {len(reach)} functions reachable from formulate: locals, constructor state or reset scratch state only")
 
 
-def argument_survives(tree: Tree, sites: CallSites, freshness: Freshness, g: FuncInfo, param: str, scratch_attr: str, busy: set[tuple[str, str]], depth: int = 0) -> tuple[str, str] | None:
-    """``g`` writes to (the object bound to) its parameter ``param``.  None if every call site on the formulate path
-    passes an object that cannot outlive formulate() - created during the call, the reset scratch state, state of an
-    object under construction, or the caller's own argument for which the same holds.  Otherwise ("survives", why) when
-    some call site hands in an object that DOES outlive the call (state of a long-lived object, a module-level object, a
-    memoised result), or ("unknown", why) when a call site passes something whose lifetime cannot be established."""
+def argument_survives(tree: Tree, sites: CallSites, freshness: Freshness, g: FuncInfo, param: str, scratch_attr: str, busy: set[tuple[str, str]], depth: int = 0) -> str | None:
+    """``g`` writes to (the object bound to) its parameter ``param``.  None if every call site on the
+    formulate path passes an object that cannot outlive formulate() - created during the call, the
+    reset scratch state, state of an object under construction, or the caller's own argument for
+    which the same holds; otherwise the reason."""
     if (g.qual, param) in busy:
         return None
     if depth > 8:
-        return "unknown", "call chain too deep to follow"
+        return "call chain too deep to follow"
     busy = busy | {(g.qual, param)}
     callers = sites.of(g)
     if not callers:
-        return "unknown", "no call site on the formulate path was found for it, so what it receives is unknown"
-    unknown: tuple[str, str] | None = None
+        return "no call site on the formulate path was found for it, so what it receives is unknown"
     for caller, call in callers:
         how, arg = bind_argument(tree, call, g, param)
         if how == "default":
             continue  # a mutable default that is written to is R-SHARED's finding
         at = f"{caller.qual} (line {getattr(call, 'lineno', '?')})"
         if how == "unknown" or arg is None:
-            unknown = unknown or ("unknown", f"{at} passes it through */** arguments")
-            continue
+            return f"{at} passes it through */** arguments"
         if freshness.fresh(arg, caller):
             continue
         txt = unparse(arg)
@@ -840,7 +742,7 @@ def argument_survives(tree: Tree, sites: CallSites, freshness: Freshness, g: Fun
                 continue
             if caller.name in {"__init__", "__new__", "__attrs_post_init__", "reset"}:
                 continue
-            return "survives", f"{at} passes `{txt[:40]}`, object state that survives formulate()"
+            return f"{at} passes `{txt[:40]}`, object state that survives formulate()"
         if isinstance(arg, ast.Name) and isinstance(arg.ctx, ast.Load):
             defs = freshness.rd(caller).reaching(arg)
             if defs and all(d.kind == "param" for d in defs) and arg.id not in {"self", "cls"}:
@@ -852,16 +754,9 @@ def argument_survives(tree: Tree, sites: CallSites, freshness: Freshness, g: Fun
                 inner = argument_survives(tree, sites, freshness, top, arg.id, scratch_attr, busy, depth + 1)
                 if inner is None:
                     continue
-                if inner[0] == "survives":
-                    return "survives", f"{at} passes its own argument `{arg.id}`: {inner[1]}"
-                unknown = unknown or ("unknown", f"{at} passes its own argument `{arg.id}`: {inner[1]}")
-                continue
-            if not defs and arg.id in caller.module.toplevel and not isinstance(caller.module.toplevel[arg.id], (ast.FunctionDef, ast.ClassDef)):
-                return "survives", f"{at} passes the module-level object `{arg.id}`"
-        if isinstance(arg, ast.Call) and any(t.qual in freshness.memo for t in cha_targets(tree, arg, caller)):
-            return "survives", f"{at} passes `{txt[:40]}`, the result of a memoised function"
-        unknown = unknown or ("unknown", f"{at} passes `{txt[:40]}`, which is not provably an object created during the call")
-    return unknown
+                return f"{at} passes its own argument `{arg.id}`: {inner}"
+        return f"{at} passes `{txt[:40]}`, which is not provably an object created during the call"
+    return None
 
 
 # --------------------------------------------------------------------------- R-SHARED
@@ -976,30 +871,62 @@ def check_shared_class_state(ctx: Check, tree: Tree) -> None:
 # --------------------------------------------------------------------------- R-CANON
 
 
-def _converter_inputs(w, ann: str) -> list[dict]:
-    """The same items in three insertion orders.  The key names are chosen so that natural order, lexicographic order and
-    every insertion order differ (`a2` < `a10` naturally, `a10` < `a2` as text)."""
-    names = ["a10", "b1", "a2", "c", "a1"]
-    if "str" in ann.split(",")[0]:
-        keys = list(names)
-    elif "Indexed" in ann:
-        keys = [w.node("Indexed", w.value("A"), w.value(n)) for n in names]
-    else:
-        keys = [w.symbol(n) for n in names]
-    plain_values = "ParameterValue" in ann
-    items = [(k, (0.5 + i) if plain_values else w.node("Definition", w.value(f"v{i}"))) for i, k in enumerate(keys)]
-    return [dict(items), dict(reversed(items)), dict([items[i] for i in (2, 4, 0, 3, 1)])]
+def _sorted_iteration(arg: ast.AST, param: str) -> bool:
+    """Does ``arg`` enumerate (the keys / items of) ``param`` in sorted order: ``sorted(param...)`` or a
+    comprehension whose outermost loop runs over it?"""
+    if isinstance(arg, ast.Call) and isinstance(arg.func, ast.Name) and arg.func.id == "sorted" and arg.args:
+        return any(isinstance(n, ast.Name) and n.id == param for n in ast.walk(arg.args[0]))
+    if isinstance(arg, (ast.ListComp, ast.GeneratorExp, ast.DictComp)):
+        return _sorted_iteration(arg.generators[0].iter, param)
+    return False
+
+
+def converter_result(tree: Tree, fn: FuncInfo, param: str | None = None, depth: int = 0) -> tuple[bool, bool, bool]:
+    """What a converter hands back for its argument ``param``, on every return path:
+    (a new mapping, filled in sorted order of the argument, wrapped in ParameterValues).
+    Locals are substituted by their definitions; a call of a package function that receives the
+    argument is followed into that function (a shared ordering helper is part of the converter)."""
+    from ..inline import Inliner
+
+    if param is None:
+        positional = [p for p in fn.params if p not in {"self", "cls"}]
+        if not positional:
+            return False, False, False
+        param = positional[0]
+    returns = [n for n in walk_function(fn.node, nested=False) if isinstance(n, ast.Return)]
+    if not returns or depth > 6:
+        return False, False, False
+    inl = Inliner(fn.node)
+    new_all, sorted_all, wraps_any = True, True, False
+    for r in returns:
+        e = inl.expr(r.value, stop={param}) if r.value is not None else None
+        new, srt = False, False
+        if isinstance(e, ast.DictComp):
+            new, srt = True, _sorted_iteration(e, param)
+        elif isinstance(e, ast.Call):
+            callee = tree.resolve(fn.module, e.func, fn)
+            last = unparse(e.func).split(".")[-1]
+            if callee in tree.funcs:
+                g = tree.funcs[callee]
+                passed = []
+                for p in g.params:
+                    how, arg = bind_argument(tree, e, g, p)
+                    if how == "expr" and isinstance(arg, ast.Name) and arg.id == param:
+                        passed.append(p)
+                if len(passed) == 1:
+                    new, srt, w = converter_result(tree, g, passed[0], depth + 1)
+                    wraps_any = wraps_any or w
+            elif last == "ParameterValues" and callee in tree.classes:
+                new, wraps_any = True, True
+            elif last in {"OrderedDict", "dict"} and (callee is None or "::" not in callee):
+                new = True
+                srt = bool(e.args) and _sorted_iteration(e.args[0], param)
+        new_all, sorted_all = new_all and new, sorted_all and srt
+    return new_all, sorted_all, wraps_any
 
 
 def check_converters(ctx: Check, tree: Tree) -> None:
-    """R-CANON: every mapping field of HelicityModel has a converter that hands back a NEW mapping with the same items in
-    an order that does not depend on the insertion order of its argument.  The converter - whatever it is: a module
-    function, a lambda, a `functools.partial`, a shared helper, a loop or a comprehension - is INTERPRETED
-    (sa/pyexec.py) on the same items in three insertion orders; nothing about its spelling is assumed."""
-    from ..pyexec import Instance, ModelError, ModelRaise, PyExec, SymWorld
-
     cls = tree.cls(MODEL)
-    scope = PyExec.module_scope(cls.module)
     n = 0
     for st in cls.node.body:
         if not (isinstance(st, ast.AnnAssign) and isinstance(st.target, ast.Name)):
@@ -1010,98 +937,32 @@ def check_converters(ctx: Check, tree: Tree) -> None:
         if not is_mapping:
             continue
         n += 1
-        key = f"{MODEL}::{name}::converter"
-        if isinstance(st.value, ast.Call) and any(k.arg is None for k in st.value.keywords):
-            raise AnalysisError(f"HelicityModel.{name}: field(**...) - cannot tell whether a converter is passed")
         conv = next((k.value for k in st.value.keywords if k.arg == "converter"), None) if isinstance(st.value, ast.Call) else None
+        key = f"{MODEL}::{name}::converter"
         if conv is None:
             ctx.violation("R-CANON", key, tree.loc(st), f"HelicityModel.{name} has no converter: the model aliases the builder's scratch dictionary")
             continue
-        ex = PyExec(tree)
-        w = SymWorld(ex)
-        ex.externals.update(w.externals())
-        pv = tree.classes.get("ampform.helicity::ParameterValues")
-
-        def make_object(klass, a, k, ex=ex):
-            obj = Instance(f"{klass.name} object", klass, kinds={c.qual for c in tree.mro(klass)} | set(tree.external_bases(klass)))
-            init = tree.lookup_method(klass, "__init__")
-            if init is not None:
-                ex.call_function(init, [obj, *a], k)
-            return obj
-
-        if pv is not None:
-            from ..pyexec import ClassObj
-
-            ex.externals[pv.qual] = ClassObj(pv, {"__call__": lambda a, k, pv=pv: make_object(pv, a, k)})
-        ex.externals["attrs.converters.pipe"] = ex.externals["attr.converters.pipe"] = lambda a, k, ex=ex: (lambda a2, k2: _pipe(ex, a, a2[0]))
-        try:
-            converter = ex.ev(conv, {}, scope, 0)
-            results = []
-            inputs = _converter_inputs(w, ann if "ParameterValues" not in ann else "Symbol, ParameterValue")
-            for given in inputs:
-                before = list(given.items())
-                got = ex.apply(converter, [given], {})
-                if list(given.items()) != before:
-                    results.append(("mutated", got))
-                else:
-                    results.append(("ok", got))
-            # attrs.evolve / a constructor call hands the converter a value that WAS converted before (the field of another model)
-            again = ex.apply(converter, [results[0][1]], {})
-            reconverted_shares = again is results[0][1] and (isinstance(again, (dict, list)) or (isinstance(again, Instance) and any(isinstance(v, (dict, list, set)) for v in again.attrs.values())))
-        except ModelRaise as exc:
-            ctx.violation("R-CANON", key, tree.loc(st), f"HelicityModel.{name}: converter {unparse(conv)[:40]} raises {exc} for a mapping of the declared type")
+        target = tree.resolve(cls.module, conv)
+        fn = tree.funcs.get(target or "")
+        if fn is None:
+            ctx.info("R-CANON", tree.loc(st), f"HelicityModel.{name}: converter {unparse(conv)} (external)")
             continue
-        except ModelError as exc:
-            raise AnalysisError(f"HelicityModel.{name}: cannot interpret the converter {unparse(conv)[:40]} - {exc}") from exc
-        shown = unparse(conv)[:40]
-        problems = []
-        orders = []
-        wrapper = None
-        for (status, got), given in zip(results, inputs):
-            if status == "mutated":
-                problems.append("modifies the mapping it is given")
-            if got is given:
-                problems.append("does not build a new mapping")
-                orders.append(list(given))
-                continue
-            items = None
-            if isinstance(got, dict):
-                items = list(got.items())
-            elif isinstance(got, Instance) and got.cls is not None:
-                wrapper = got.cls.name
-                if any(v is given for v in got.attrs.values()):
-                    problems.append(f"does not build a new mapping (the {got.cls.name} object keeps the mapping it was given)")
-                if tree.lookup_method(got.cls, "items") is not None:
-                    items = [tuple(p) for p in ex.iterate(ex.call_method(got, "items"))]
-            if items is None:
-                raise AnalysisError(f"HelicityModel.{name}: converter {shown} returns {got!r}: not a mapping of the model world")
-            if len(items) != len(given) or any(k not in given or given[k] is not v and given[k] != v for k, v in items):
-                problems.append("does not keep the items of its argument")
-            orders.append([k for k, _ in items])
-        if reconverted_shares:
-            problems.append("does not build a new mapping when it is given an already converted value (attrs.evolve passes the field of the old model: both models then share one mutable mapping)")
-        if any(p.startswith("does not build") or p.startswith("modifies") or p.startswith("does not keep") for p in problems):
-            ctx.violation("R-CANON", key, tree.loc(st), f"HelicityModel.{name}: converter {shown} {sorted(set(problems))[0]}")
-            continue
-        canonical = all(o == orders[0] for o in orders)
-        follows_input = all(o == list(given) for o, given in zip(orders, inputs))
-        if canonical:
-            ctx.ok("R-CANON", tree.loc(st), f"HelicityModel.{name}: converter {shown} builds a new mapping whose order does not depend on the insertion order ({len(inputs)} orders tried)")
-        elif follows_input and wrapper == "ParameterValues":
+        builds_new, sorts, wraps = converter_result(tree, fn)
+        body = "ParameterValues" if wraps else ""
+        if not builds_new:
+            ctx.violation("R-CANON", key, tree.loc(st), f"HelicityModel.{name}: converter {fn.name} does not build a new mapping")
+        elif not sorts:
             # ParameterValues copies with dict(); insertion order is deterministic once R-CACHE/R-ORDER hold
-            ctx.advisory("R-CANON", tree.loc(st), f"HelicityModel.{name}: converter {shown} copies but does not sort although the docstring promises natural-sort order")
-            ctx.ok("R-CANON", tree.loc(st), f"HelicityModel.{name}: converter {shown} copies into a new mapping")
+            copies = any("dict(" in unparse(m.node) for m in tree.classes.get("ampform.helicity::ParameterValues").methods.values()) if "ParameterValues" in body else False
+            if copies:
+                ctx.advisory("R-CANON", tree.loc(st), f"HelicityModel.{name}: converter {fn.name} copies but does not sort although the docstring promises natural-sort order")
+                ctx.ok("R-CANON", tree.loc(st), f"HelicityModel.{name}: converter {fn.name} copies into a new mapping")
+            else:
+                ctx.violation("R-CANON", key, tree.loc(st), f"HelicityModel.{name}: converter {fn.name} neither sorts nor copies")
         else:
-            ctx.violation("R-CANON", key, tree.loc(st), f"HelicityModel.{name}: converter {shown} neither sorts nor copies into a canonical order: the order of the result "
-                          + ("is the insertion order of the argument" if follows_input else "depends on the insertion order of the argument"))
+            ctx.ok("R-CANON", tree.loc(st), f"HelicityModel.{name}: converter {fn.name} builds a new mapping in sorted order")
     if n < 4:
         raise AnalysisError(f"only {n} mapping fields on HelicityModel (4 confirmed)")
-
-
-def _pipe(ex, converters, value):
-    for c in converters:
-        value = ex.apply(c, [value], {})
-    return value
 
 
 FRESH_SOURCES = {
